@@ -1,4 +1,6 @@
 """C10 - delayed reactions deliver their delayed part exactly once, after the delay (DESIGN.md 4.6)."""
+import hashlib
+
 import numpy as np
 
 from simkit import distoracle, pathinv, refmodel as rm, seeds, ssaengine as eng
@@ -27,7 +29,79 @@ TIERS = {
 MODES = ["delay"] * 6 + ["delayvolume"] * 2 + ["ssa", "volume"]
 
 
+def gen_delay_law_case(case_seed):
+    """A -> (delay) B with every firing within ~0.05 time units of t = 0: B(t)/N then traces the delay law's CDF."""
+    r = seeds.rng(case_seed, "delaylaw")
+    fam = r.choice(["fixed", "gaussian", "gamma", "gamma", "gamma"])
+    if fam == "fixed":
+        pd = {"delay": r.choice([0.75, 2.0, 3.25, 6.5])}
+    elif fam == "gaussian":
+        pd = {"mean": r.choice([0.5, 2.0, 4.0]), "std": r.choice([0.5, 1.0, 2.0])}
+    else:
+        pd = {"k": r.choice([1.0, 1.0, 1.0, 2.0, 2.5, 4.0]), "theta": r.choice([0.25, 0.5, 1.0, 2.0, 5.0])}
+    params = {}
+    for key in list(pd):
+        if r.random() < 0.4:
+            params["dp_" + key] = pd[key]
+            pd[key] = "dp_" + key
+    return {"_delaylaw": True, "family": fam, "pd": pd, "params": params, "N": 1500, "h": 0.5, "npts": 17,
+            "mode": r.choice(["delay", "delay", "delayvolume"]), "bseed": seeds.bioscrape_seed(case_seed, "run"),
+            "grid": [0.5 * i for i in range(17)]}
+
+
+def run_delay_law_case(case):
+    import math
+    import warnings
+    import bioscrape.random as R_
+    from bioscrape.types import Model
+    from bioscrape.simulator import py_simulate_model
+    from scipy.stats import gamma as _gamma, norm as _norm
+    N, h = case["N"], case["h"]
+    grid = np.array(case["grid"], dtype=float)
+    M = Model(species=["A", "B"], reactions=[(["A"], [], "massaction", {"k": 200.0}, case["family"], [], ["B"], dict(case["pd"]))],
+              parameters=list(case["params"].items()), initial_condition_dict={"A": N, "B": 0})
+    R_.py_seed_random(case["bseed"])
+    kw = {"delay": True}
+    if case["mode"] == "delayvolume":
+        kw["volume"] = 1.3
+    with warnings.catch_warnings():
+        warnings.simplefilter("ignore")
+        res = py_simulate_model(grid, Model=M, stochastic=True, return_dataframe=False, **kw)
+    rows = np.array(res.py_get_result(), dtype=float)
+    order = M.get_species_list()
+    B = rows[:, order.index("B")]
+    val = {k: (case["params"][v] if isinstance(v, str) else v) for k, v in case["pd"].items()}
+
+    def F(t):
+        if case["family"] == "fixed":
+            return 1.0 if t >= val["delay"] else 0.0
+        if case["family"] == "gaussian":
+            return float(_norm.cdf((t - val["mean"]) / val["std"])) if t >= 0 else 0.0
+        return float(_gamma.cdf(max(t, 0.0), a=val["k"], scale=val["theta"]))
+
+    viols = []
+    tol = 6.0 * math.sqrt(0.25 / N)
+    sig = {"mode": case["mode"], "delay_family": case["family"]}
+    for k in range(1, len(grid)):
+        # delivered at the slot nearest to t_fire + delay; t_fire in [0, ~0.05]; the row at a slot's own time is open
+        lo, hi = F(grid[k] - h - 0.06) - tol, F(grid[k] + h) + tol
+        frac = B[k] / N
+        if not (lo <= frac <= hi):
+            viols.append({"class": "delay_law_not_followed", "signature": sig,
+                          "detail": {"time": float(grid[k]), "delivered_fraction": float(frac), "allowed": [lo, hi],
+                                     "delay": case["pd"], "params": case["params"]}})
+            break
+    stats = {"delay_law_cases": 1, "delay_law_" + case["family"]: 1, "firings": N}
+    if case["family"] == "gamma" and val["k"] == 1.0:
+        stats["delay_law_gamma_shape_one"] = 1
+    dg = hashlib.sha256(np.ascontiguousarray(B).tobytes()).hexdigest()
+    return {"violations": viols, "stats": stats, "sig": repr(("delaylaw", case["family"], sorted(val.items()), case["mode"])),
+            "nontrivial": True, "digest": dg, "sim_time": float(grid[-1])}
+
+
 def gen_case(case_seed, cfg):
+    if seeds.rng(case_seed, "kind").random() < 0.01:
+        return gen_delay_law_case(case_seed)
     case = c06.gen_case(case_seed, cfg, modes=MODES, plain_delay_p=1.0, far_p=0.08, nonuniform_p=0.0)
     r = seeds.rng(case_seed, "c10")
     if case["mode"] == "delay" and len(case["grid"]) >= 5 and r.random() < 0.3:
@@ -83,6 +157,8 @@ def accounting(case, raw, stats):
 
 
 def run_case(case):
+    if case.get("_delaylaw"):
+        return run_delay_law_case(case)
     if case.get("_dist"):
         out = distoracle.run_dist_case(case, case["N"])
         return {"violations": out["violations"], "stats": out["stats"], "sig": None, "nontrivial": False,
@@ -127,12 +203,14 @@ def crash_signature(case):
 
 
 def shrink(case):
-    if case.get("_dist"):
+    if case.get("_dist") or case.get("_delaylaw"):
         return
     yield from c06.shrink(case)
 
 
 def sample(case, res):
+    if case.get("_delaylaw"):
+        return {k: case[k] for k in ("family", "pd", "params", "mode", "N")}
     d = c06.sample(case, res)
     d["delays"] = [rx.get("delay") for rx in case["model"]["reactions"]][:3]
     return d
